@@ -46,6 +46,7 @@ struct RunResult {
     std::uint64_t evhash = 0;    // hash of the event log
     std::uint64_t signature = 0; // canonical state signature (distinctness)
     bool nontrivial = false;
+    bool poisoned = false; // process state may be corrupt: do not run on
     Stats st;
     std::vector<std::string> log; // event log lines (when requested)
     // outcome tables observed at the last CHECK of each policy
